@@ -290,6 +290,9 @@ pub fn case_wire(caller: &str, mask: &str, ident: &str) -> Vec<Finding> {
             if !after.contains(&norm) || after.iter().any(|x| x.starts_with("zz")) {
                 out.push(finding("wire:refused-change", format!("after refused +{}/-{} attempts by a plain member the list is {:?}, expected to hold exactly what the operator set ({:?})", letter, letter, after, norm)));
             }
+            // the text compared is the user's nick!user@host as registered: a re-sent USER
+            // (refused, 462) does not change it
+            m!(w.send(slot, "USER zz 8 * :x"));
             w.take_all();
             // enforced
             let matches = glob(&norm, &src);
@@ -353,6 +356,8 @@ pub fn case_wire(caller: &str, mask: &str, ident: &str) -> Vec<Finding> {
             }
         }
         "oper" => {
+            m!(w.send(slot, "USER zz 8 * :x"));
+            w.take_all();
             m!(w.send(slot, "OPER op oppw"));
             let ls = w.take_lines(slot);
             let ok = ls.iter().any(|l| l.contains(" 381 "));
